@@ -115,7 +115,7 @@ fn main() {
     std::fs::create_dir_all(&out).unwrap();
     let mut trace = std::fs::File::create(format!("{out}/trace.{BACKEND}.ndjson")).unwrap();
     let cases: Vec<serde_json::Value> = std::fs::read_to_string(&cases_path).unwrap().lines().filter(|l| !l.trim().is_empty()).map(|l| serde_json::from_str(l).unwrap()).collect();
-    let certs = ["valid", "wrongname", "expired", "selfsigned", "unknownissuer"];
+    let certs = ["valid", "wrongname", "expired", "selfsigned", "unknownissuer", "justexpired"];
     let servers: Vec<(String, TlsServer)> = certs.iter().map(|c| (c.to_string(), start_server(&fix, c))).collect();
     let rt = tokio::runtime::Builder::new_multi_thread().worker_threads(2).enable_all().build().unwrap();
     let ca_pem = std::fs::read(format!("{fix}/ca.pem")).unwrap();
@@ -136,12 +136,17 @@ fn main() {
         let uri: Uri = target.parse().unwrap();
         let req = IppRequestResponse::new(IppVersion::v1_1(), Operation::GetPrinterAttributes, Some(uri.clone()));
         let own = std::fs::read(format!("{fix}/{cert}.cert.pem")).unwrap();
-        let root: Option<&[u8]> = match roots {
-            "none" => None,
-            "pem" => Some(&ca_pem),
-            "der" => Some(&ca_der),
-            "ownleaf" => Some(&own),
-            _ => Some(&other_pem),
+        // the roots handed to ca_cert, in this order (one call each)
+        let root: Vec<&[u8]> = match roots {
+            "none" => vec![],
+            "pem" => vec![&ca_pem],
+            "der" => vec![&ca_der],
+            "ownleaf" => vec![&own],
+            "unrel+pem" => vec![&other_pem, &ca_pem],
+            "unrel+der" => vec![&other_pem, &ca_der],
+            "der+unrel" => vec![&ca_der, &other_pem],
+            "pem+der" => vec![&ca_pem, &ca_der],
+            _ => vec![&other_pem],
         };
         let res: Result<(), String> = if client == "blocking" {
             let mut b = IppClient::builder(uri).request_timeout(Duration::from_secs(5));
@@ -150,7 +155,7 @@ fn main() {
                 "false" => b.ignore_tls_errors(false),
                 _ => b,
             };
-            if let Some(r) = root {
+            for r in &root {
                 b = b.ca_cert(r);
             }
             b.build().send(req).map(|_| ()).map_err(|e| format!("{e}"))
@@ -161,7 +166,7 @@ fn main() {
                 "false" => b.ignore_tls_errors(false),
                 _ => b,
             };
-            if let Some(r) = root {
+            for r in &root {
                 b = b.ca_cert(r);
             }
             let cl = b.build();
